@@ -81,7 +81,7 @@ def cases(tier):
     # SplineMethod programs (integrator chains), alone and as a sub-stage next to a sampling method
     from ..common import have_networkx
     if have_networkx():
-        for meths in (["Spline"], ["Spline", "MS"], ["DC", "Spline"]):
+        for meths in (["Spline"], ["Spline", "MS"], ["DC", "Spline"], ["MS", "nested:DC"], ["MS", "nested:MS", "MS"]):
             for pos in ("fresh", "after_query", "after_solve", "after_edit", "after_method", "twice"):
                 out.append(dict(kind="chain", methods=meths, pos=pos, dev=meths))
     return out
@@ -128,8 +128,10 @@ def run_case(case):
                 ocp = rockit.Ocp()
                 sts = []
                 for i, mth in enumerate(meths):
-                    st_ = ocp.stage(t0=0.5 * i, T=1.0 + 0.25 * i)
-                    sts.append((st_,) + c12.chain_stage(st_, mth, i == 0))
+                    # 'nested:<m>': the stage is a sub-stage of the previous stage (third level below the Ocp)
+                    parent = sts[-1][0] if mth.startswith("nested:") else ocp
+                    st_ = parent.stage(t0=0.5 * i, T=1.0 + 0.25 * i)
+                    sts.append((st_,) + c12.chain_stage(st_, mth.split(":")[-1], i == 0))
                 ocp.subject_to(sts[0][0].at_tf(sts[0][1]) == sts[1][0].at_t0(sts[1][1]))
             ocp.solver("ipopt", hist.SOLVER_OPTS["A"])
             r = P.Real(); r.ocp = ocp
@@ -247,6 +249,6 @@ def run_case(case):
 
 def describe(tier):
     return dict(
-        rule="program alphabet over %d feature dimensions (methods, integrators, grids incl. localized/free/density, horizon kinds, state shapes, DAE, global/per-interval parameters and variables, scaling, guesses incl. time expressions, solver option sets, constraint sets with offsets and grid options) at <=2 deviations, plus multi-stage programs (direct and cloned; a sub-stage parameter updated after the solve) and SplineMethod programs (alone and as a sub-stage) x save position (before any transcription, after a query, after a solve, after post-transcription set_value/set_initial, after a solve followed by an invalidating edit, after a solve followed by a change of method, save-load twice): what the solver receives from the loaded OCP (rows, objective, start, parameters, solver settings) = from the original after saving = from a fresh OCP; accessor lists and shapes equal and in the same order; updates through the loaded OCP's accessor symbols (after its first solve, and on a second loaded copy before any transcription) have the same effect" % len(DIMS),
+        rule="program alphabet over %d feature dimensions (methods, integrators, grids incl. localized/free/density, horizon kinds, state shapes, DAE, global/per-interval parameters and variables, scaling, guesses incl. time expressions, solver option sets, constraint sets with offsets and grid options) at <=2 deviations, plus multi-stage programs (direct and cloned; a sub-stage parameter updated after the solve) and SplineMethod programs (alone and as a sub-stage), nested stages (a sub-stage of a stage) x save position (before any transcription, after a query, after a solve, after post-transcription set_value/set_initial, after a solve followed by an invalidating edit, after a solve followed by a change of method, save-load twice): what the solver receives from the loaded OCP (rows, objective, start, parameters, solver settings) = from the original after saving = from a fresh OCP; accessor lists and shapes equal and in the same order; updates through the loaded OCP's accessor symbols (after its first solve, and on a second loaded copy before any transcription) have the same effect" % len(DIMS),
         bound="k<=2 deviations x %s positions" % ("7" if tier == "thorough" else "2-7"),
         assumptions=["solver spy is 'what the solver receives'", "files are written to a per-case temp dir that is removed"])
